@@ -27,24 +27,22 @@ Theorem C05_narrow_is_round_to_nearest_even : forall x : binary64,
 Proof. exact narrow_finite_correct. Qed.
 Print Assumptions C05_narrow_is_round_to_nearest_even.
 
-(* where the overflow happens: from 2^128 - 2^103 (the tie between FLT_MAX and 2^128, which is
-   the double 0x47effffff0000000) upwards the result is infinity; up to the preceding double
-   (0x47efffffefffffff) it is finite and correctly rounded *)
-Theorem C05_overflow_to_infinity : forall x : binary64,
-  Binary.is_finite 53 1024 x = true ->
-  (Binary.B2R 53 1024 (b64_of_bits 0x47effffff0000000) <= Rabs (Binary.B2R 53 1024 x))%R ->
-  narrow x = B754_infinity 24 128 (Binary.Bsign 53 1024 x).
-Proof. exact narrow_overflow. Qed.
-Print Assumptions C05_overflow_to_infinity.
-
-Theorem C05_no_overflow_below_threshold : forall x : binary64,
-  Binary.is_finite 53 1024 x = true ->
-  (Rabs (Binary.B2R 53 1024 x) <= Binary.B2R 53 1024 (b64_of_bits 0x47efffffefffffff))%R ->
-  Binary.is_finite 24 128 (narrow x) = true /\
-  Binary.B2R 24 128 (narrow x) =
-    round radix2 (FLT_exp (-149) 24) ZnearestE (Binary.B2R 53 1024 x).
-Proof. exact narrow_no_overflow. Qed.
-Print Assumptions C05_no_overflow_below_threshold.
+(* where the overflow happens: from 2^128 - 2^103 (the tie between FLT_MAX and 2^128, which is the double
+   0x47effffff0000000) upwards the result is infinity; up to the preceding double (0x47efffffefffffff, adjacent:
+   see C05_examples) it is finite and correctly rounded *)
+Theorem C05_overflow_threshold :
+  (forall x : binary64,
+   Binary.is_finite 53 1024 x = true ->
+   (Binary.B2R 53 1024 (b64_of_bits 0x47effffff0000000) <= Rabs (Binary.B2R 53 1024 x))%R ->
+   narrow x = B754_infinity 24 128 (Binary.Bsign 53 1024 x)) /\
+  (forall x : binary64,
+   Binary.is_finite 53 1024 x = true ->
+   (Rabs (Binary.B2R 53 1024 x) <= Binary.B2R 53 1024 (b64_of_bits 0x47efffffefffffff))%R ->
+   Binary.is_finite 24 128 (narrow x) = true /\
+   Binary.B2R 24 128 (narrow x) =
+     round radix2 (FLT_exp (-149) 24) ZnearestE (Binary.B2R 53 1024 x)).
+Proof. exact (conj narrow_overflow narrow_no_overflow). Qed.
+Print Assumptions C05_overflow_threshold.
 
 (* classes: signed zeros and infinities are kept, NaN stays NaN and nothing else becomes NaN,
    in both directions (store: double -> float, read: float -> double) *)
@@ -58,27 +56,21 @@ Theorem C05_classes_preserved :
 Proof. exact (conj narrow_classes widen_classes). Qed.
 Print Assumptions C05_classes_preserved.
 
-(* reading a float (float -> double) is exact *)
-Theorem C05_widen_exact : forall x : binary32,
-  Binary.is_finite 24 128 x = true ->
-  Binary.B2R 53 1024 (widen x) = Binary.B2R 24 128 x /\
-  Binary.is_finite 53 1024 (widen x) = true /\
-  Binary.Bsign 53 1024 (widen x) = Binary.Bsign 24 128 x.
-Proof. exact widen_finite_correct. Qed.
-Print Assumptions C05_widen_exact.
-
-(* "and reading returns it" is stable: storing what was read gives back the same float,
-   for every non-NaN binary32 (subnormals, zeros and infinities included) *)
-Theorem C05_narrow_widen : forall x : binary32,
-  Binary.is_nan 24 128 x = false -> narrow (widen x) = x.
-Proof. exact narrow_widen. Qed.
-Print Assumptions C05_narrow_widen.
-
-(* ... the same on the 2^32 - 2^24 + 2 non-NaN bit patterns *)
-Theorem C05_narrow_widen_bits : forall f : Z,
-  0 <= f < 2 ^ 32 -> is_nan32_bits f = false -> narrow_bits (widen_bits f) = f.
-Proof. exact narrow_widen_bits_concrete. Qed.
-Print Assumptions C05_narrow_widen_bits.
+(* reading a float (float -> double) is exact; "and reading returns it" is stable: storing what was read gives
+   back the same float for every non-NaN binary32 (subnormals, zeros, infinities included), also on the
+   2^32 - 2^24 + 2 non-NaN bit patterns *)
+Theorem C05_read_is_exact_and_stable :
+  (forall x : binary32,
+   Binary.is_finite 24 128 x = true ->
+   Binary.B2R 53 1024 (widen x) = Binary.B2R 24 128 x /\
+   Binary.is_finite 53 1024 (widen x) = true /\
+   Binary.Bsign 53 1024 (widen x) = Binary.Bsign 24 128 x) /\
+  (forall x : binary32,
+   Binary.is_nan 24 128 x = false -> narrow (widen x) = x) /\
+  (forall f : Z,
+   0 <= f < 2 ^ 32 -> is_nan32_bits f = false -> narrow_bits (widen_bits f) = f).
+Proof. exact (conj widen_finite_correct (conj narrow_widen narrow_widen_bits_concrete)). Qed.
+Print Assumptions C05_read_is_exact_and_stable.
 
 (* a double that already holds a binary32 value is stored unchanged *)
 Theorem C05_representable_unchanged : forall x : binary64,
@@ -102,63 +94,53 @@ Theorem C05_store_then_read : forall d rest, 0 <= d < 2 ^ 64 ->
 Proof. exact (fun d rest H => conj (float_store_read d rest H) (double_store_read d rest H)). Qed.
 Print Assumptions C05_store_then_read.
 
-(* complex: real part at offset 0, imaginary part at offset sizeof(type), each stored exactly as a
-   float store of that component; and both parts read back as the float read would *)
-Theorem C05_complex_store_componentwise : forall k v mem,
-  store_complex k v = Ok mem ->
-  exists re im, PyComplex_AsCComplex v = Ok (re, im) /\
-    firstn (fsize k) mem = write_raw_float_data k re /\
-    skipn (fsize k) mem = write_raw_float_data k im /\
-    store_float k (PyFloat re) = Ok (firstn (fsize k) mem) /\
-    store_float k (PyFloat im) = Ok (skipn (fsize k) mem).
-Proof. exact store_complex_componentwise. Qed.
-Print Assumptions C05_complex_store_componentwise.
+(* complex: real part at offset 0, imaginary part at offset sizeof(type), each stored exactly as a float store
+   of that component (store and cast paths), and both parts read back as the float read would *)
+Theorem C05_complex_componentwise :
+  (forall k v mem,
+   store_complex k v = Ok mem ->
+   exists re im, PyComplex_AsCComplex v = Ok (re, im) /\
+     firstn (fsize k) mem = write_raw_float_data k re /\
+     skipn (fsize k) mem = write_raw_float_data k im /\
+     store_float k (PyFloat re) = Ok (firstn (fsize k) mem) /\
+     store_float k (PyFloat im) = Ok (skipn (fsize k) mem)) /\
+  (forall k v mem,
+   cast_complex k v = Ok mem ->
+   exists re im,
+     firstn (fsize k) mem = write_raw_float_data k re /\
+     skipn (fsize k) mem = write_raw_float_data k im /\
+     match check_bytes_for_float_compatible v with
+     | Some (Some d) => re = d /\ im = pos_zero
+     | _ => PyComplex_AsCComplex v = Ok (re, im)
+     end) /\
+  (forall k re im, 0 <= re < 2 ^ 64 -> 0 <= im < 2 ^ 64 ->
+   read_raw_complex_data k (write_raw_complex_data k re im) =
+   (read_raw_float_data k (write_raw_float_data k re), read_raw_float_data k (write_raw_float_data k im))).
+Proof. exact (conj store_complex_componentwise (conj cast_complex_componentwise read_write_raw_complex)). Qed.
+Print Assumptions C05_complex_componentwise.
 
-Theorem C05_complex_cast_componentwise : forall k v mem,
-  cast_complex k v = Ok mem ->
-  exists re im,
-    firstn (fsize k) mem = write_raw_float_data k re /\
-    skipn (fsize k) mem = write_raw_float_data k im /\
-    match check_bytes_for_float_compatible v with
-    | Some (Some d) => re = d /\ im = pos_zero
-    | _ => PyComplex_AsCComplex v = Ok (re, im)
-    end.
-Proof. exact cast_complex_componentwise. Qed.
-Print Assumptions C05_complex_cast_componentwise.
-
-Theorem C05_complex_read_after_write : forall k re im, 0 <= re < 2 ^ 64 -> 0 <= im < 2 ^ 64 ->
-  read_raw_complex_data k (write_raw_complex_data k re im) =
-  (read_raw_float_data k (write_raw_float_data k re), read_raw_float_data k (write_raw_float_data k im)).
-Proof. exact read_write_raw_complex. Qed.
-Print Assumptions C05_complex_read_after_write.
-
-(* ffi.cast and a store agree on floats, objects with __float__ and ints; a 1-char bytes/str is
-   accepted by the cast only and contributes its ordinal, exactly *)
-Theorem C05_cast_vs_store : forall k v,
-  match v with
-  | PyBytes _ | PyStr _ => store_float k v = Err TypeError
-  | _ => cast_float k v = store_float k v
-  end.
-Proof. exact cast_float_vs_store. Qed.
-Print Assumptions C05_cast_vs_store.
-
-Theorem C05_char_ordinal_exact : forall n : Z, 0 <= n < 2 ^ 24 ->
-  cast_float F64 (PyStr [n]) = Ok (write_raw_float_data F64 (double_of_ordinal n)) /\
-  cast_float F32 (PyStr [n]) = Ok (write_raw_float_data F32 (double_of_ordinal n)) /\
-  Binary.B2R 53 1024 (b64_of_bits (double_of_ordinal n)) = IZR n /\
-  Binary.B2R 24 128 (narrow (b64_of_bits (double_of_ordinal n))) = IZR n.
-Proof. exact char_ordinal_exact. Qed.
-Print Assumptions C05_char_ordinal_exact.
-
-(* Python int -> double is correctly rounded; OverflowError exactly when the rounded value is out of range *)
-Theorem C05_int_to_double : forall n : Z,
-  let r := round radix2 (FLT_exp (-1074) 53) ZnearestE (IZR n) in
-  if Rlt_bool (Rabs r) (bpow radix2 1024) then
-    exists d, int_to_double n = Some d /\ 0 <= d < 2 ^ 64 /\
-              Binary.B2R 53 1024 (b64_of_bits d) = r /\ Binary.is_finite 53 1024 (b64_of_bits d) = true
-  else int_to_double n = None.
-Proof. exact int_to_double_correct. Qed.
-Print Assumptions C05_int_to_double.
+(* ffi.cast and a store agree on floats, objects with __float__ and ints; a 1-char bytes/str is accepted by the
+   cast only and contributes its ordinal exactly; a Python int is correctly rounded (OverflowError exactly when
+   the rounded value is out of range) *)
+Theorem C05_python_value_conversions :
+  (forall k v,
+   match v with
+   | PyBytes _ | PyStr _ => store_float k v = Err TypeError
+   | _ => cast_float k v = store_float k v
+   end) /\
+  (forall n : Z, 0 <= n < 2 ^ 24 ->
+   cast_float F64 (PyStr [n]) = Ok (write_raw_float_data F64 (double_of_ordinal n)) /\
+   cast_float F32 (PyStr [n]) = Ok (write_raw_float_data F32 (double_of_ordinal n)) /\
+   Binary.B2R 53 1024 (b64_of_bits (double_of_ordinal n)) = IZR n /\
+   Binary.B2R 24 128 (narrow (b64_of_bits (double_of_ordinal n))) = IZR n) /\
+  (forall n : Z,
+   let r := round radix2 (FLT_exp (-1074) 53) ZnearestE (IZR n) in
+   if Rlt_bool (Rabs r) (bpow radix2 1024) then
+     exists d, int_to_double n = Some d /\ 0 <= d < 2 ^ 64 /\
+               Binary.B2R 53 1024 (b64_of_bits d) = r /\ Binary.is_finite 53 1024 (b64_of_bits d) = true
+   else int_to_double n = None).
+Proof. exact (conj cast_float_vs_store (conj char_ordinal_exact int_to_double_correct)). Qed.
+Print Assumptions C05_python_value_conversions.
 
 (* long double: read then write (convert_to_object, convert_from_object from a long double cdata,
    do_cast long double -> long double) keeps the 10 value bytes, whatever the 6 padding bytes *)
